@@ -18,11 +18,14 @@ LEVEL = "exploration"
 TECHNIQUE = ("generated template sets with one marked single-line failing construct; expected line "
              "counted by the harness from the source text; traceback.extract_tb / "
              "TemplateSyntaxError.lineno compared")
-RULE = ("case = (site kind [58 single-line raising forms: calls in every expression position of "
+RULE = ("case = (site kind [92 single-line raising forms: calls in every expression position of "
         "{{ }}/set/if/elif/for/for-filter/with/print/do/call/filter-block/set-block/macro default/"
         "macro and call-block arguments/filter and test arguments/include/import/from/extends/"
         "autoescape/trans, raising filter/test/attribute/item/method, division by zero, "
-        "StrictUndefined chains, missing include/import | 34 multi-line statements whose raising "
+        "StrictUndefined chains, missing include/import, 27 compile-time CONSTANT expressions that "
+        "cannot be evaluated or printed (constant subscript/attribute misses under StrictUndefined, "
+        "constant filter/test/operator applications that raise, in {{ }}, if, set, for, print, "
+        "filter blocks), 6 values rejected by a raising finalize hook (constant and variable) | 39 multi-line statements whose raising "
         "tag is a single-line tag on a line of its own between other branches/statements (elif "
         "conditions, else/elif/for-else bodies, second statements of bodies, tags after a closed "
         "statement) | 22 single-line malformed forms], optional '-' whitespace control on the site "
@@ -31,8 +34,10 @@ RULE = ("case = (site kind [58 single-line raising forms: calls in every express
         "include, imported macro, child block of a parent, parent block (+super), parent "
         "top-level], filler before/after at every level [text lines, blank lines, multi-line tags/"
         "expressions/strings/comments, '-' stripped line breaks, raw blocks] with \\n, \\r\\n, \\r "
-        "mixed, env [default | trim_blocks | lstrip_blocks | both], loader [dict | filesystem], "
-        "sync | async). distinct = distinct (part, site kind, ws control, wrapper chain, filler "
+        "mixed, env [default | trim_blocks | lstrip_blocks | both] x [no finalize | raising-finalize "
+        "hook], loader [dict | filesystem], sync | async). Runtime cases first load every template "
+        "of the set with get_template: that must succeed (the templates are well-formed), the error "
+        "belongs to rendering. distinct = distinct (part, site kind, ws control, wrapper chain, filler "
         "feature set before the site, env, loader, mode)")
 LEVEL_TEXT = ("held on K generated (template set, site) executions: reported line == harness-counted "
               "line of the single-line tag holding the failing expression (also when it is an inner "
@@ -43,6 +48,9 @@ ASSUMPTIONS = [
     "belongs to and its surroundings need not (an expression spread over several lines inside one "
     "tag is not claimed: tag line vs expression line is undocumented)",
     "helper callables/values live in env.globals so imported macros see them",
+    "a well-formed template whose failing construct is a constant expression loads without error; "
+    "the error is raised when the construct is rendered (otherwise no template line could be "
+    "reported for it at all)",
     "for dict-loaded templates every template frame carries the same pseudo filename, so only the "
     "line (not which template) is checked there; the filesystem loader checks both",
 ]
@@ -53,14 +61,16 @@ FLOORS = {
               "counters": {"runtime_line_checks": 1500, "syntax_line_checks": 800,
                            "fs_filename_checks": 300, "async_cases": 400,
                            "site_after_stripped_newlines": 300, "crossed_template": 500,
-                           "multiline_before_site": 2500}},
+                           "multiline_before_site": 2500, "const_site_checks": 500,
+                           "finalize_env_cases": 400, "load_checks": 3000}},
     # thorough: 960k evaluations / 913k distinct in 281 s (count-bounded) at load
     # ~1x, 417k / 403k (time-boxed) at load ~4x; floors = 1/4 of the latter
     "thorough": {"evaluations": 100000, "distinct": 95000,
                  "counters": {"runtime_line_checks": 65000, "syntax_line_checks": 32000,
                               "fs_filename_checks": 21000, "async_cases": 32000,
                               "site_after_stripped_newlines": 24000, "crossed_template": 44000,
-                              "multiline_before_site": 95000}},
+                              "multiline_before_site": 95000, "const_site_checks": 15000,
+                              "finalize_env_cases": 12000, "load_checks": 100000}},
 }
 
 SITE = "\x00SITE\x00"
@@ -85,6 +95,13 @@ class Obj:
     def raiser(self):
         raise Boom("method")
 
+
+
+def finalize_boom(v):
+    """finalize hook of some environments: rejects None and one marker string."""
+    if v is None or (type(v) is str and v == "FINBOOM"):
+        raise Boom("finalize")
+    return v
 
 
 class ObjItem:
@@ -154,6 +171,42 @@ RAISING = [
     ("compare", "{{ 1 < boom() }}", "Boom"),
     ("and-or", "{{ true and boom() }}", "Boom"),
     ("extends-expr", "{% extends boom() %}", "Boom", "top"),
+    # compile-time constant expressions that cannot be evaluated / printed: the error
+    # belongs to rendering (loading the template succeeds) and to this line
+    ("const-item-missing", "{{ ['x', 'y'][5] }}", "UndefinedError"),
+    ("const-attr-missing", "{{ {'k': 1}.missing }}", "UndefinedError"),
+    ("const-str-attr-missing", "{{ 'abc'.nope }}", "UndefinedError"),
+    ("const-missing-chain", "{{ (1).zz.yy }}", "UndefinedError"),
+    ("const-filter-raises", "{{ 'abc'|round }}", "TypeError"),
+    ("const-filter-undefined", "{{ []|first }}", "UndefinedError"),
+    ("const-filter-arg-undefined", "{{ 'a'|default([][0].x) }}", "UndefinedError"),
+    ("const-sum-raises", "{{ [1, 'a']|sum }}", "TypeError"),
+    ("const-floordiv-zero", "{{ 1 // 0 }}", "ZeroDivisionError"),
+    ("const-mod-zero", "{{ 1 % 0 }}", "ZeroDivisionError"),
+    ("const-test-raises", "{{ 1 is divisibleby(0) }}", "ZeroDivisionError"),
+    ("const-unary-raises", "{{ -'a' }}", "TypeError"),
+    ("const-pow-raises", "{{ 2 ** 'a' }}", "TypeError"),
+    ("const-compare-undefined", "{{ 1 < [][0] }}", "UndefinedError"),
+    ("const-in-undefined", "{{ 'a' in [][0] }}", "UndefinedError"),
+    ("const-or-undefined", "{{ 0 or [][0] }}", "UndefinedError"),
+    ("const-not-undefined", "{{ not [][0] }}", "UndefinedError"),
+    ("const-dict-unhashable", "{{ {[1]: 2} }}", "TypeError"),
+    ("const-and-undefined", "{{ [][0] and 1 }}", "UndefinedError"),
+    ("const-condexpr-undefined", "{{ 1 if [][0] else 2 }}", "UndefinedError"),
+    ("const-concat-undefined", "{{ 'a' ~ 'b'.zz }}", "UndefinedError"),
+    ("const-join-undefined", "{{ [[][0]]|join }}", "UndefinedError"),
+    ("const-if-undefined", "{% if [][0] %}x{% endif %}", "UndefinedError"),
+    ("const-set-raises", "{% set q = 1 // 0 %}", "ZeroDivisionError"),
+    ("const-for-iter-raises", "{% for q in 1 // 0 %}x{% endfor %}", "ZeroDivisionError"),
+    ("const-print-second", "{% print 1, [1][3] %}", "UndefinedError"),
+    ("const-filter-block", "{% filter round %}x{% endfilter %}", "TypeError"),
+    # a finalize hook that rejects a value (environment option finalize)
+    ("finalize-const-none", "{{ none }}", "Boom", "finalize"),
+    ("finalize-const-folded", "{{ 'FIN' ~ 'BOOM' }}", "Boom", "finalize"),
+    ("finalize-const-filtered", "{{ 'finboom'|upper }}", "Boom", "finalize"),
+    ("finalize-const-item", "{{ [1, none][1] }}", "Boom", "finalize"),
+    ("finalize-var", "{{ finvar }}", "Boom", "finalize"),
+    ("finalize-call", "{{ ident(none) }}", "Boom", "finalize"),
 ]
 # statements spanning several lines; the tag that holds the raising expression
 # is a complete single-line tag on a line of its own (marked @@), with other
@@ -199,6 +252,11 @@ RAISING_ML = [
     ("ml:trans-after-trans", "{% trans %}\na\n{% endtrans %}\n@@{% trans q=boom() %}{{ q }}{% endtrans %}", "Boom"),
     ("ml:do-between", "{% do 1 %}\n@@{% do boom() %}\n{% do 2 %}", "Boom"),
     ("ml:output-third-line", "a\n{{ 1 }}\n@@{{ boom() }}\nb", "Boom"),
+    ("ml:const-output-third-line", "a\n{{ 1 }}\n@@{{ ['x'][3] }}\nb", "UndefinedError"),
+    ("ml:const-output-between-consts", "{{ 'a' }}\n{{ 2 }}\n@@{{ 'abc'.nope }}\n{{ 3 }}", "UndefinedError"),
+    ("ml:const-elif-cond", "{% if false %}\nq\n@@{% elif 1 // 0 %}\nx\n{% endif %}", "ZeroDivisionError"),
+    ("ml:const-else-body", "{% if false %}\na\n{% else %}\nb\n@@{{ {'k': 1}.missing }}\n{% endif %}", "UndefinedError"),
+    ("ml:const-for-body", "{% for q in items %}\n{{ q }}\n@@{{ 1 % 0 }}\n{% endfor %}", "ZeroDivisionError"),
 ]
 MALFORMED = [
     ("binop-eof", "{{ 1 + }}"), ("stray-paren", "{{ ) }}"), ("pipe-eof", "{{ x | }}"),
@@ -370,6 +428,7 @@ def gen_case(r, part):
     """-> JSON-able case dict."""
     g = Gen(r)
     top_only = False
+    needs_finalize = False
     multiline = False
     if part == "runtime" and r.random() < 0.35:
         kind, site_src, exc = r.choice(RAISING_ML)
@@ -379,6 +438,7 @@ def gen_case(r, part):
         row = r.choice(RAISING)
         kind, site_src, exc = row[:3]
         top_only = len(row) > 3 and row[3] == "top"
+        needs_finalize = len(row) > 3 and row[3] == "finalize"
     else:
         kind, site_src = r.choice(MALFORMED)
         exc = "TemplateSyntaxError"
@@ -461,6 +521,7 @@ def gen_case(r, part):
         "env": r.choice(["default", "default", "trim", "lstrip", "trim+lstrip"]),
         "loader": r.choice(["dict", "dict", "fs"]),
         "mode": r.choice(["sync", "sync", "async"]),
+        "finalize": needs_finalize or r.random() < 0.15,
     }
 
 
@@ -472,6 +533,8 @@ def make_env(case, tmpdir):
         kw["trim_blocks"] = True
     if "lstrip" in case["env"].split("+"):
         kw["lstrip_blocks"] = True
+    if case.get("finalize"):
+        kw["finalize"] = finalize_boom
     if case["loader"] == "fs":
         for name, src in case["templates"].items():
             with open(os.path.join(tmpdir, name), "w", encoding="utf-8", newline="") as f:
@@ -483,7 +546,8 @@ def make_env(case, tmpdir):
                              extensions=["jinja2.ext.do", "jinja2.ext.i18n"], enable_async=case["mode"] == "async",
                              cache_size=50, auto_reload=False, **kw)
     env.install_null_translations()
-    env.globals.update(nsg=jinja2.utils.Namespace(), boom=boom, ident=lambda v: v, obj=Obj(), objitem=ObjItem(), zero=0, items=[1, 2])
+    env.globals.update(nsg=jinja2.utils.Namespace(), boom=boom, ident=lambda v: v, obj=Obj(), objitem=ObjItem(), zero=0, items=[1, 2],
+                       finvar="FINBOOM")
     env.filters["boomf"] = boom
     env.tests["boomt"] = boom
     return env
@@ -515,7 +579,27 @@ def _check(ctx, case, tmpdir, jinja2):
     mech = case["kind"].split("/")[0]     # variants of one construct share the key
     tag = f"{part}:{mech}"
     desc = (f"{case['kind']} at {case['site_tpl']}:{case['line']} chain={case['chain']} "
-            f"env={case['env']} loader={case['loader']} mode={case['mode']}")
+            f"env={case['env']} loader={case['loader']} mode={case['mode']}"
+            + (" finalize-hook" if case.get("finalize") else ""))
+    if case.get("finalize"):
+        ctx.count("finalize_env_cases")
+    const_site = mech.startswith(("const-", "finalize-const", "ml:const-"))
+    if part == "runtime":
+        # every template of the set is well-formed: loading (= compiling) it succeeds, the
+        # failing construct raises when it is rendered
+        for name in case["templates"]:
+            ctx.count("load_checks")
+            try:
+                env.get_template(name)
+            except BaseException as e:  # noqa: BLE001
+                where = mech if name == case["site_tpl"] else "other-template"
+                ctx.violation(f"load-time-raise:{where}",
+                              f"{desc}: get_template({name!r}) raised {type(e).__name__}: "
+                              f"{str(e)[:200]} -- no template line can be reported for it; source "
+                              f"{case['templates'][name]!r}", case)
+                return
+        if const_site:
+            ctx.count("const_site_checks")
     exc = None
     try:
         t = env.get_template("main.html")
@@ -534,7 +618,7 @@ def _check(ctx, case, tmpdir, jinja2):
                       f"{desc}: raised {type(exc).__name__}: {str(exc)[:300]}", case)
         return
     dist_key = (part, case["kind"], case["ws"], case["chain"], case["feat_before"], case["env"],
-                case["loader"], case["mode"])
+                case["loader"], case["mode"], bool(case.get("finalize")))
     if part == "syntax":
         ctx.count("syntax_line_checks")
         if exc.lineno != case["line"]:
@@ -551,7 +635,7 @@ def _check(ctx, case, tmpdir, jinja2):
     for name in case["templates"]:
         try:
             names[name] = env.get_template(name).filename
-        except jinja2.TemplateError:
+        except Exception:  # noqa: BLE001
             names[name] = None
     fnset = {v for v in names.values() if v}
     frames = [f for f in traceback.extract_tb(exc.__traceback__) if f.filename in fnset]
